@@ -73,11 +73,11 @@ class C12(Prop):
     harness_flags = WRAP            # all ASan/UBSan checks active (the three UB findings in esl_dsqdata.c were repaired upstream: 09d0278, 0b6ecdd)
     theorems = ["EaselModel.Props.C12." + t for t in (
         "wq_conservation", "wq_exclusive", "wq_fifo", "wq_fifo_prefix", "wq_counters", "wq_no_lost_wakeup_worker",
-        "wq_no_lost_wakeup_reader", "wq_wake_delivers", "wq_no_overflow", "wq_run_reachable",
+        "wq_no_lost_wakeup_reader", "wq_wake_delivers", "wq_reset_spec", "wq_no_overflow", "wq_run_reachable",
         "wq_reset_while_pending_loses_wakeup", "wq_unrepaired_remove_loses_block",
         "codec_unpack5_pack5", "codec_unpack2_pack2", "codec_unpack2_pack5", "codec_packet_count", "codec_eod_last",
         "codec_unpack_chunk", "codec_pack_in_place", "codec_unpack_in_place", "codec_metadata_round_trip", "th_barrier", "th_counter", "th_no_lost_wakeup_master", "th_progress",
-        "loader_nload_largest_prefix", "loader_chunks_partition", "dsq_chunks_are_the_database", "pipe_order", "pipe_eof_after_all", "pipe_lanes", "pipe_no_deadlock", "pipe_no_lost_wakeup", "pipe_buffers")]
+        "loader_nload_largest_prefix", "loader_chunks_partition", "dsq_chunks_are_the_database", "pipe_order", "pipe_eof_after_all", "pipe_lanes", "pipe_no_deadlock", "pipe_no_lost_wakeup", "pipe_eof_delivered", "pipe_buffers")]
     claimed = True
     level_text = ("Theorems for every schedule of one reader and any number of workers (one atomic step per mutex-protected region, spurious wake-ups allowed): "
                   "conservation and exclusivity of blocks, FIFO on both queues (history variables), counters in range and pendingWorkers = number of sleepers, "
@@ -126,7 +126,12 @@ class C12(Prop):
         c.append({"name": "wq-seq", "sticky": 1, "ops": ["wq create size=2", "wq init b=1", "wq init b=2", "wq rupd in=0 out=1", "wq rupd in=1 out=1",
                                                         "wq wupd w=1 in=0 out=1", "wq wupd w=1 in=1 out=1", "wq rupd in=2 out=0", "wq reset", "wq complete",
                                                         "wq rupd in=0 out=1", "wq remove", "wq remove"]})
-        c.append({"name": "wqrun-small", "ops": ["wqrun size=1 workers=1 blocks=1 items=3 seed=1 pert=0", "wqrun size=4 workers=3 blocks=4 items=12 seed=2 pert=60"]})
+        # the three "queue overflow" refusals (more blocks than the queue size: outside the contract, but the call must change nothing)
+        c.append({"name": "wq-overflow", "sticky": 1, "ops": ["wq create size=1", "wq init b=1", "wq init b=2", "wq rupd in=0 out=1", "wq rupd in=1 out=0",
+                                                             "wq wupd w=1 in=0 out=1", "wq init b=2", "wq wupd w=1 in=1 out=0", "wq init b=3", "wq rupd in=0 out=1",
+                                                             "wq wupd w=1 in=1 out=1", "wq rupd in=2 out=0", "wq wupd w=1 in=1 out=0", "wq rupd in=2 out=0", "wq remove", "wq remove"]})
+        c.append({"name": "wqrun-small", "ops": ["wqrun size=1 workers=1 blocks=1 items=3 seed=1 pert=0", "wqrun size=4 workers=3 blocks=4 items=12 seed=2 pert=60",
+                                                             "wqrun size=2 workers=3 blocks=2 items=9 seed=3 pert=80 lazy=1"]})
         c.append({"name": "thrun-small", "ops": ["thrun workers=1 rounds=2 seed=1 pert=0", "thrun workers=4 rounds=2 seed=3 pert=70"]})
         c.append(self.dsq_case("dsq-one-per-chunk", "dna", [[0, 1, 2, 3] * 5, [], [15] * 7, [0, 1, 2, 3] * 10 + [4 + 1]], 1, 8, 2, 2, 1))
         c.append(self.dsq_case("dsq-single-empty-seq", "amino", [[]], 3, 4, 1, 2, 1))
@@ -161,8 +166,9 @@ class C12(Prop):
             ds = "" if r.random() < 0.4 else " ".join("".join(r.choice("abcdefghij;:,=()[]") for _ in range(r.randrange(1, 9))) for _ in range(r.randrange(1, 5)))
             names.append(nm.encode()); descs.append(ds.encode())
         lst = lambda xs: ",".join("x" + "".join("%02x" % b for b in x) for x in xs) if xs else "-"      # element = "x" + hex (may be empty)
-        op = "dsqrt abc=%s maxseq=%d maxpacket=%d unpackers=%d consumers=%d seed=%d pert=%d names=%s descs=%s dsq=%s" % (
-            abc, maxseq, maxpacket, unpackers, consumers, seed, pert, lst(names), lst(descs), lst(seqs))
+        hold = r.choice([1, 1, 2, 3, 5, 13])     # chunks a consumer works on at once before recycling them (the harness caps it)
+        op = "dsqrt abc=%s maxseq=%d maxpacket=%d unpackers=%d consumers=%d seed=%d pert=%d hold=%d names=%s descs=%s dsq=%s" % (
+            abc, maxseq, maxpacket, unpackers, consumers, seed, pert, hold, lst(names), lst(descs), lst(seqs))
         if raw:      # database written by the harness itself: accessions and taxonomy ids, every residue code of the alphabet
             accs = [("" if r.random() < 0.3 else "".join(r.choice("ABCXYZ0123456789._") for _ in range(r.randrange(1, 12)))).encode() for _ in seqs]
             tax = [r.choice([-1, 1, 9606, 2**31 - 1, r.randrange(1, 1 << 31)]) for _ in seqs]
@@ -222,6 +228,15 @@ class C12(Prop):
             for _ in range(rng.randrange(5, 60)):
                 r = rng.random()
                 valid = rng.random() < 0.9
+                if rng.random() < 0.06:      # try to overflow a full queue: the call must be refused and change nothing
+                    if len(rq) >= size and nb < size + 2:
+                        nb += 1; ops.append("wq init b=%d" % nb); continue
+                    mine0 = [b for b, h in held.items() if h == 0]
+                    if len(wq) >= size and mine0:
+                        ops.append("wq rupd in=%d out=0" % mine0[0]); continue
+                    minew = [(b, h) for b, h in held.items() if h > 0]
+                    if len(rq) >= size and minew:
+                        ops.append("wq wupd w=%d in=%d out=0" % (minew[0][1], minew[0][0])); continue
                 if r < 0.15 and nb < cap and (len(rq) < size or not valid):
                     nb += 1; ops.append("wq init b=%d" % nb)
                     if len(rq) < size: rq.append(nb)
@@ -263,8 +278,13 @@ class C12(Prop):
             W = rng.randrange(1, 7)
             B = rng.choice([1, size, rng.randrange(1, size + 1)])
             M = rng.choice([0, 1, 2, 7, 20, rng.randrange(0, 60 if quick else 400)])
-            out.append({"name": "wqrun%d" % c, "ops": ["wqrun size=%d workers=%d blocks=%d items=%d seed=%d pert=%d" % (
-                size, W, B, M, rng.randrange(1, 1 << 30), rng.choice([0, 10, 30, 60, 90]))]})
+            out.append({"name": "wqrun%d" % c, "ops": ["wqrun size=%d workers=%d blocks=%d items=%d seed=%d pert=%d lazy=%d" % (
+                size, W, B, M, rng.randrange(1, 1 << 30), rng.choice([0, 10, 30, 60, 90]), rng.random() < 0.4)]})
+            stats["wqrun"] += 1
+        # queue size <= number of workers (the reader and the workers keep hitting empty / single-slot queues), every run
+        for (size, W, B) in [(1, 1, 1), (1, 2, 1), (1, 4, 1), (1, 6, 1), (2, 2, 2), (2, 3, 1), (2, 4, 2), (2, 6, 2), (3, 3, 3), (3, 6, 2), (4, 4, 4), (4, 6, 3)]:
+            out.append({"name": "wqrun-small-%d-%d-%d" % (size, W, B), "ops": ["wqrun size=%d workers=%d blocks=%d items=%d seed=%d pert=%d lazy=%d" % (
+                size, W, B, rng.randrange(10, 45), rng.randrange(1, 1 << 30), rng.choice([0, 30, 60, 90]), (size + W + B) % 2)]})
             stats["wqrun"] += 1
         # --- start rendezvous
         for c in range(60 if quick else 600):
@@ -336,6 +356,15 @@ class C12(Prop):
                 out.append(self.dsq_case("dsq-%s-%d" % (shape, k), "amino" if amino else "dna", seqs, maxseq, maxpacket, rng.randrange(1, 5), rng.randrange(1, 5),
                                          rng.randrange(1, 1 << 30), rng.choice([0, 30, 70]), rng, raw=raw))
                 k += 1; stats["dsqrt"] += 1; stats["dsqrt_seqs"] += len(seqs)
+        # consumers working on several chunks at once, many small chunks: the loader runs out of buffers and waits on the
+        # recycling stack (the only way to reach that wait), with every unpacker / consumer count
+        for (U_, C_) in [(1, 1), (1, 2), (2, 1), (4, 1), (2, 3), (1, 4)]:
+            amino = rng.random() < 0.5
+            seqs = [[rng.randrange(20 if amino else 4) for _ in range(rng.randrange(0, 20))] for _ in range(rng.randrange(25, 45))]
+            cse = self.dsq_case("dsq-hold-%d-%d" % (U_, C_), "amino" if amino else "dna", seqs, 1, 8, U_, C_, rng.randrange(1, 1 << 30), rng.choice([40, 70, 90]), rng,
+                                raw=rng.random() < 0.5)
+            cse["ops"] = [re.sub(r"hold=\d+", "hold=13", cse["ops"][0])]
+            out.append(cse); stats["dsqrt"] += 1; stats["dsqrt_seqs"] += len(seqs)
         if not quick:
             # the upper end of the quantifier: thousands of sequences, sequences of 20000 residues, default-sized chunk limits
             for c, (nseq, maxlen, maxseq, maxpacket) in enumerate([(5000, 40, 64, 300), (3000, 60, 4096, 2000), (40, 20000, 7, 3400), (12, 20000, 4096, 262144 // 8)]):
@@ -431,9 +460,8 @@ class C12(Prop):
                 m = re.match(r"(\S+)(?: b=(\d+))? \| (-?\d+) (-?\d+) (-?\d+) (\S+) (\S+)$", l)
                 if not m: continue
                 st = m.group(1)
-                if w[1] == "init":
-                    ninit += 1
-                    if st == "ok": inited.append(int(a["b"]))
+                if w[1] == "init" and st == "ok":
+                    ninit += 1; inited.append(int(a["b"]))
                 if ninit > size: continue        # more blocks than the queue size: outside the caller's contract (model and code still must agree)
                 if l.startswith("ok b=0"):
                     return Failure("monitor", "queue handed out NULL with eslOK: %r" % l)
